@@ -7,6 +7,7 @@ import (
 	"fmt"
 	"math/big"
 	"sort"
+	"strings"
 
 	distrtypes "github.com/chain4energy/c4e-chain/x/cfedistributor/types"
 	sdk "github.com/cosmos/cosmos-sdk/types"
@@ -85,6 +86,10 @@ func genDistrAccount(t *rapid.T, label string, o DistrGenOpts, asSource bool, us
 					continue
 				}
 				a = DAcc{Type: tBase, Id: ModuleAddr(distrtypes.DistributorMainAccount).String()}
+				if rapid.Bool().Draw(t, l+"_upper") {
+					// bech32 has two valid spellings of every address; both decode to the same bytes
+					a.Id = strings.ToUpper(a.Id)
+				}
 			default:
 				a = DAcc{Type: tBase, Id: LockedVestingAddr().String()}
 			}
@@ -258,7 +263,7 @@ func (c DCfg) Classes() map[string]bool {
 		} else if a.Type != tMain {
 			otherIds[a.Id] = true
 		}
-		if (a.Type == tModule && a.Id == distrtypes.DistributorMainAccount) || (a.Type == tBase && a.Id == ModuleAddr(distrtypes.DistributorMainAccount).String()) {
+		if (a.Type == tModule && a.Id == distrtypes.DistributorMainAccount) || (a.Type == tBase && strings.EqualFold(a.Id, ModuleAddr(distrtypes.DistributorMainAccount).String())) {
 			cl["main_alias"] = true
 		}
 		if a.Type == tBase && a.Id == LockedVestingAddr().String() {
